@@ -240,6 +240,10 @@ class PyTranslator:
                         if not isinstance(tt, ast.Name):
                             raise AnalysisError(f"{self.where}: unsupported target {core.src(tt)}")
                         env[tt.id] = v
+                elif isinstance(t, ast.Tuple) and isinstance(s.value, (ast.Name, ast.Attribute)) and all(isinstance(tt, ast.Name) for tt in t.elts):
+                    # unpacking a sequence: e0, b0, bp, v0 = p   ->   p[0], p[1], ...
+                    for k_, tt in enumerate(t.elts):
+                        env[tt.id] = self.expr(ast.Subscript(value=s.value, slice=ast.Constant(value=k_), ctx=ast.Load()), env)
                 elif isinstance(t, ast.Subscript):
                     env[core.src(t)] = self.expr(s.value, env)
                 else:
